@@ -134,7 +134,7 @@ func (vm *VM) convertPanic(msg any) error {
 			}
 		}
 	case OpAppendSlice:
-		if err, ok := msg.(string); ok && err == "reflect.Append: slice overflow" {
+		if err, ok := msg.(string); ok && (err == "reflect.Append: slice overflow" || err == "reflect.Value.Grow: slice overflow") {
 			return vm.newPanic(runtimeError("append: out of memory"))
 		}
 	case OpCallIndirect:
